@@ -277,4 +277,22 @@ PROPS = {
             {"name": "scenarios", "test": "TestProp_C11", "kind": "rapid", "checks_quick": 150, "checks_thorough": 3000, "shards": 8},
         ],
     },
+    "C03": {
+        "manifest": {
+            "text": "scenarios of litestream commands run by a child process that the ptrace supervisor SIGKILLs at the enter-stop of the k-th file-system-mutating system call (global counter over all threads); after the kill: every LTX-named file under the meta and replica trees verifies, an in-flight restore output is absent or complete, everything acknowledged before the kill is still restorable; after an unassisted restart the first acknowledged sync satisfies the R1 page oracle and the continued history ends with R1. Fixed scenarios (one per command class) are killed at every k in thorough",
+            "note": "process kill, not power loss (no block-level reordering); the application lives in the harness process and is idle between kill and restart; kill indices of fixed scenarios are enumerated completely in thorough, sampled in quick",
+            "technique": "fault enumeration over syscall-level kill points (ptrace supervisor) plus property-based generation of (scenario, kill point) pairs (rapid)",
+        },
+        "binary": "props",
+        "level": "fault_enumeration",
+        "rule": ("generated: scenarios of 4-10 commands {sync, syncwait, rsync, checkpoint x4, compact, snapshot, retention x3, restore} with 1-2 application writes between them, a "
+                 "dry run under the tracer to learn the number N of mutating calls, kill index k = 3%..100% of N, optional second kill after the restart. Enumeration: 6 "
+                 "fixed scenarios x every k in 1..N (thorough) or every 9th k (quick). Non-trivial = the kill landed inside a command after 'open'; distinct = hash of (scenario, k)."),
+        "assumptions": ["x86_64 Linux ptrace", "lsdriver executes one command at a time on one goroutine, so its syscall sequence is deterministic up to Go runtime noise"],
+        "runs": [
+            {"name": "generated", "test": "TestProp_C03", "kind": "rapid", "checks_quick": 48, "checks_thorough": 1200, "shards": 8},
+            {"name": "enumerate-kill-points", "test": "TestEnum_C03", "kind": "plain", "shards": 8, "env": {"VERIF_ENUM": "1"},
+             "env_quick": {"VERIF_ENUM_STRIDE": "9"}, "env_thorough": {"VERIF_ENUM_STRIDE": "1"}},
+        ],
+    },
 }
